@@ -11,7 +11,7 @@ RULE = ("fixed network R-p0-J0=(pa || pb)=J1 (closing the target pa never isolat
         "CLOCKTIME c (daily), rule IF SYSTEM TIME rel t, rule IF SYSTEM CLOCKTIME rel c with rel in {=, >, >=, <, <=}, with and "
         "without ELSE, actions OPEN/CLOSED, priorities {1,3,5}; t in {0, 1h, 1h18 (off the hydraulic grid, on the 6-min rule grid), "
         "1h21m40 (off both), 2h, 25h}, c in {0:00, 1:00, 6:30, 23:00, 23:30 and 23:57 (inside the step that ends at midnight)}; start_clocktime {0, 3h, 22h}; hydraulic step {1h, 30min}; rule "
-        "step {6 min, 1 h}; report 'ALL'; plus single controls and rules written into an INP file in every time notation EPANET accepts (H:MM:SS, H:MM, decimal hours; clock times with AM/PM, 24-hour with and without seconds; hours 0, 12, 13, 23) and read by the INP reader.  singles are fully crossed with the options, sets use start {0, 3h} x hyd 1h x rule 6 min.  "
+        "step {6 min, 1 h}; report 'ALL'; plus single controls and rules written into an INP file in every time notation EPANET accepts (H:MM:SS, H:MM, decimal hours; clock times with AM/PM, 24-hour with and without seconds; hours 0, 12, 13, 23) and read by the INP reader; plus daily close/reopen pairs (simple and rule) over a 99-hour run.  singles are fully crossed with the options, sets use start {0, 3h} x hyd 1h x rule 6 min.  "
         "oracle: reference event timeline (one-shot time controls, daily clock-time controls, level-triggered rules at positive "
         "multiples of the rule step, rules before simple controls, highest priority wins); every instant at which the timeline "
         "changes must be a solved step and the reported status at every solved step must equal the timeline.  non-trivial: the "
@@ -227,6 +227,15 @@ def cases(tier):
                 s = base(H, 900, clock)
                 s["controls"] = [dict(c, name="c0")]
                 s["inp_read"] = nt
+                out.append(s)
+    # several days: daily clock-time controls / rules must act on EVERY day of a 99-hour run (close at c1, reopen at c2)
+    for c1, c2 in ((6 * H + 900, 18 * H), (23 * H + 1800, 2 * H), (H, 13 * H + 900)):
+        for rule_ in (False, True):
+            for clock in (0, 8 * H, 22 * H):
+                s = base(H, 900, clock)
+                s["opts"]["dur"] = 99 * H
+                s["controls"] = [dict(ctl("clock", "=", c1, "CLOSED", rule=rule_), name="c0"), dict(ctl("clock", "=", c2, "OPEN", rule=rule_), name="c1")]
+                s["days"] = 4
                 out.append(s)
     # EPANET also evaluates rules at the end of a hydraulic step that a simple control cut short; a rule on an instant
     # ('=') then sees another interval than on the rule grid alone.  Outside the statement: kept out of the space.
@@ -447,6 +456,8 @@ def run_case(s):
         kinds = "start_clocktime-set-after-controls:" + kinds
     if s.get("inp_read"):
         kinds = "read-from-inp:%s:" % s["inp_read"] + kinds
+    if s.get("days"):
+        kinds = "99h-run:" + kinds
     counts["solved_instants"] = len(r.times)
     for l in targets:
         st = r.link["status"][l]
